@@ -102,6 +102,7 @@ def _work(job):
 
 def run(chk, build, replay=None):
     common.standard_proof_part(chk, build, VFILES)
+    propkit.replay_known(chk, "C14")      # listed design-level deviations of this property: re-confirmed on the real code
     chk.trusted += [
         "C14: Imports.v gives the statements' semantics (language reference) and the semantics of importlib.import_module / "
         "__import__ / attribute reads (importlib documentation) over an abstract import system; both are models of CPython's import "
